@@ -142,7 +142,20 @@ def check_dual_update(ctx: Ctx):
     upd = [n for n in own_nodes(f.node) if isinstance(n, ast.AugAssign) and ast.unparse(n.target).startswith(("row_potential[", "col_potential[", "min_slack["))]
     ctx.floor("dual update statements", len(upd), 3)
     adv = [n for n in own_nodes(f.node) if isinstance(n, ast.Assign) and ast.unparse(n) == "current_col = next_col"]
-    ctx.require(len(adv) == 1, "augmenting-search advance `current_col = next_col` not found")
+    ctx.require(len(adv) >= 1, "augmenting-search advance `current_col = next_col` not found")
+    # every move to the next column comes after this step's dual update
+    upd_loops = {id(cfg.node_of(u).loop): cfg.node_of(u).loop for u in upd if cfg.node_of(u).loop is not None}
+    for a_ in adv:
+        a_n = cfg.node_of(a_)
+        after = any(cfg.dominates(lp, a_n) and lp.loop is a_n.loop for lp in upd_loops.values())
+        if not after:
+            # the update may sit under `if delta != 0:` (a zero step changes nothing): then that test is passed instead
+            for st_ in own_nodes(f.node):
+                if isinstance(st_, ast.If) and ast.unparse(st_.test).replace(" ", "") in ("delta!=0", "delta", "0!=delta", "delta!=0.0") and any(cfg.node_of(u) is not None and any(u is x for x in ast.walk(st_)) for u in upd):
+                    tn_ = cfg.stmt_node_containing(st_.test)
+                    if tn_ is not None and cfg.dominates(tn_, a_n) and tn_.loop is a_n.loop:
+                        after = True
+        ctx.ob("C10-O4", "R29 EXACTLY-ONCE", f, "the search moves to the next column only after the dual update of this step", after, f"`current_col = next_col` at line {a_.lineno} is reached without passing the update loop: the rows and columns visited in this search keep potentials that are short by delta, matched edges stop being tight and later rows are searched with wrong reduced costs", node=a_)
     an = cfg.node_of(adv[0])
     inner = an.loop
     ok = True
@@ -254,7 +267,20 @@ def _v_zero_columns_empty_assignment(tree):
     M.replace_expr(g, lambda e: M.src_is(e, "[-1] * len(cost_matrix)"), M.expr("[]"))
 
 
+def _v_skip_update_on_padding_column(tree):
+    g = M.find_func(tree, "solve_hungarian")
+    for n in ast.walk(g):
+        if isinstance(n, ast.While) and M.src_is(n.test, "col_match[current_col] != 0"):
+            k = [i for i, st in enumerate(n.body) if isinstance(st, ast.For) and M.src_has(st, "row_potential[col_match[j]] += delta")]
+            if not k:
+                raise M.Skip("update loop not found")
+            n.body[k[0]:k[0]] = M.stmts("if next_col > n_cols and col_match[next_col] == 0:\n    current_col = next_col\n    break")
+            return
+    raise M.Skip("search loop not found")
+
+
 VARIANTS = [
+    M.Variant("the search leaves for a free padding column before the dual update of that step (seed C10-O)", HU, _v_skip_update_on_padding_column, "C10-O4"),
     M.Variant("a matrix without columns gives the empty assignment instead of one -1 per row (original defect)", HU, _v_zero_columns_empty_assignment, "C10-O6"),
     M.Variant("objective summed from the padded/reflected working copy", HU, _v_objective_from_working, "C10-O1"),
     M.Variant("reflection applied when minimizing too", HU, _v_reflect_always, "C10-O3"),
